@@ -107,8 +107,8 @@ func c13sBody(w *c13World, sc c13sScn) func(x *vs.Exec) {
 			wire, stored := honestWire(nil)
 			s.Go("consume-response", func() {
 				c := conns[sc.MsgOn]
-				st := c.newStrm(wire)
-				st.detached = true
+				st := &c13Strm{conn: c, wake: make(chan struct{}), data: wire, detached: true}
+				c.track(st)
 				st.SetDeadline(time.Now().Add(f.ids.timeout))
 				f.ids.handleIdentifyResponse(st, false)
 			})
@@ -117,8 +117,8 @@ func c13sBody(w *c13World, sc c13sScn) func(x *vs.Exec) {
 			wire, stored := honestWire(c13MsPrefix(IDPush))
 			s.Go("inbound-push", func() {
 				c := conns[sc.MsgOn]
-				st := c.newStrm(wire)
-				st.detached = true
+				st := &c13Strm{conn: c, wake: make(chan struct{}), data: wire, detached: true}
+				c.track(st)
 				f.net.inbound(st)
 			})
 			lastStored = stored
@@ -255,6 +255,22 @@ func TestVerifC13Sched(t *testing.T) {
 				return
 			}
 		}
+		return
+	}
+	if vs.FreeMode() {
+		// free-running pass for the race detector (validates the data-race-freedom assumption of the scheduler)
+		r := vrep.New("C13", "race-pass")
+		dl := vrep.Deadline()
+		n := 0
+		for time.Now().Before(dl) {
+			for _, sc := range scs {
+				runs, _ := vs.FreeRun(t, c13sScenario(w, sc), 3, dl)
+				n += runs
+			}
+		}
+		r.Executions = int64(n)
+		r.Note("free-running executions: %d", n)
+		r.Flush()
 		return
 	}
 	si, sn := vrep.Shard()
